@@ -51,7 +51,9 @@ def impl(line):
             fs = [(unesc(t[5 + 2 * i]), mk_buf(t[6 + 2 * i])) for i in range(n)]
             return show_buf(ComputeFunctions[fid][0](fs, pos))
         raise ValueError('bad op')
-    k, v = guarded(run, 3.0)
+    # "did not terminate" is a wall-clock verdict: the budget grows with the input (the walks re-slice what is left at every
+    # step, quadratic in the packet size: ~1 s for 5 KB on an idle core) so that long inputs on a busy machine are not hangs
+    k, v = guarded(run, 3.0 + len(line) / 1500.0)
     return v if k == 'ok' else 'err:' + v
 
 def parse_fields(s):
@@ -270,8 +272,9 @@ def gen(props, tier, rng):
                 chunk = bytes([ctype, 0]) + (4 + fixed + len(params)).to_bytes(2, 'big') + bytes(fixed) + params
                 yield f'parse header SCTPParser 0 syn {lbits(sctp_common + chunk)}'
             yield f'parse stack SCTP {lbits(sctp_common + bytes([14, 0, 0, 4]) * many)}'
-            sack = bytes(8) + many.to_bytes(2, 'big') + many.to_bytes(2, 'big') + bytes(4) * many + bytes(4) * many
-            yield f'parse header SCTPParser 0 syn {lbits(sctp_common + bytes([3, 0]) + (4 + len(sack)).to_bytes(2, "big") + sack)}'
+            for ngap, ndup in ((many, 0), (0, many)):
+                sack = bytes(8) + ngap.to_bytes(2, 'big') + ndup.to_bytes(2, 'big') + bytes(4) * ngap + bytes(4) * ndup
+                yield f'parse header SCTPParser 0 syn {lbits(sctp_common + bytes([3, 0]) + (4 + len(sack)).to_bytes(2, "big") + sack)}'
             for mode in ('syn', 'sem'):
                 yield f'parse header CoAPParser 0 {mode} {lbits(bytes([0x40, 1, 0, 1]) + bytes([0x10]) * many)}'
                 yield f'parse header CoAPParser 0 {mode} {lbits(bytes([0x40, 1, 0, 1]) + bytes([0x01, 0x61]) * many + bytes([0xff, 1]))}'
